@@ -666,6 +666,31 @@ pub fn gen_c04(rng: &mut Rng, tier: Tier) -> NetProgram {
 
 // ---------------------------------------------------------------- C03 (net level): bursts of same-instant emissions
 
+/// C02 at the net layer: the channel-free C03 scenarios (every delivery time is predictable) with attempts to emit
+/// messages for past instants sprinkled over the handlers.
+pub fn gen_c02_net(rng: &mut Rng, tier: Tier) -> NetProgram {
+    let mut prog = gen_c03_net(rng, tier);
+    let nmod = prog.modules.len();
+    for _ in 0..1 + rng.small(4) {
+        let v = rng.usize(nmod);
+        let nb = prog.modules[v].beats.len();
+        if nb == 0 {
+            continue;
+        }
+        let bi = rng.usize(nb);
+        let na = prog.modules[v].beats[bi].acts.len();
+        let pos = rng.usize(na + 1);
+        let back_ns = match rng.below(4) {
+            0 => 1,
+            1 => 1 + rng.below(1_000),
+            2 => 1_000_000_000 * (1 + rng.below(3)),
+            _ => 1 + rng.below(3_000_000_000),
+        };
+        prog.modules[v].beats[bi].acts.insert(pos, Act::SendPast { gate: rng.below(3) as u32, back_ns, mode: rng.below(2) as u8 });
+    }
+    prog
+}
+
 pub fn gen_c03_net(rng: &mut Rng, tier: Tier) -> NetProgram {
     let nmod = 1 + rng.small(3) as usize;
     let mut prog = NetProgram { seed: rng.u64(), ..Default::default() };
